@@ -14,3 +14,6 @@ def run(chk):
     X.execute_structure(chk, "C09")
     X.item_in_child_context(chk, "C09")
     X.on_task_complete(chk, "C09", want=("C07",))
+    from . import batch_accessors
+    chk.assume("S: a comprehension [E(x) for x in xs if P(x)] is the in-order filter-map of xs; sum(1 for ..) counts; any(..) is the disjunction; next(gen, None) is the first element or None")
+    batch_accessors.accessors(chk, "C09")   # how user code reads the reported branches: succeeded()/failed()/started()/get_results()/get_errors()/counts/status/throw_if_error
